@@ -146,6 +146,10 @@ func randBig(r *rand.Rand, bits int) *big.Int {
 
 func randBytes(r *rand.Rand) string {
 	n := r.Intn(12)
+	if r.Intn(8) == 0 {
+		// long strings: lengths around and well beyond the 70-character limit of constant.Value.String
+		n = []int{60, 69, 70, 71, 72, 100, 128, 300}[r.Intn(8)] + r.Intn(3)
+	}
 	b := make([]byte, n)
 	for i := range b {
 		switch r.Intn(6) {
